@@ -62,7 +62,7 @@ fn exact_case(cfg: &Cfg, grp: &str, case: u64, rng: &mut Rng, rep: &mut Report, 
     let kit = Arc::new(kit);
     let o = Obs { cfg, grp, case, spec: &spec };
     let nl = kit.levels.len();
-    rep.count("chains", &format!("{}|levels={}|keylevel_separate={}", spec.scheme_name(), nl, kit.has_keyswitching()));
+    rep.count("chains", &format!("{}|levels={}|keylevel_separate={}", spec.scheme_name(), nl, kit.has_keyswitching())); rep.count("degree", &format!("{}|N={:05}", spec.scheme_name(), spec.n));
     if case == 0 { rep.sample(json!({"group": grp, "params": spec.describe(), "data_levels": nl, "calls": "every (source,target) pair x sizes 2..4 x {mod_switch_to, mod_switch_to_next, rescale refusals, mod_switch_plain_to} x {inplace,dest,new}, each under a watchdog", "level_moduli": (0..nl).map(|l| kit.level_qs(l)).collect::<Vec<_>>()})); }
     // BGV correction factor bookkeeping reference: f * prod q_dropped^-1 mod t
     let t = spec.t;
@@ -224,7 +224,7 @@ fn ckks_case(cfg: &Cfg, grp: &str, case: u64, rng: &mut Rng, rep: &mut Report, l
     let kit = Arc::new(kit);
     let o = Obs { cfg, grp, case, spec: &spec };
     let nl = kit.levels.len(); let n = kit.n();
-    rep.count("chains", &format!("CKKS|levels={}|keylevel_separate={}", nl, kit.has_keyswitching()));
+    rep.count("chains", &format!("CKKS|levels={}|keylevel_separate={}", nl, kit.has_keyswitching())); rep.count("degree", &format!("CKKS|N={:05}", n));
     if case == 0 { rep.sample(json!({"group": grp, "params": spec.describe(), "data_levels": nl, "calls": "every (source,target) pair x sizes 2..4 x {mod_switch_to, rescale_to} x {inplace,dest,new} + plaintext switching", "level_moduli": (0..nl).map(|l| kit.level_qs(l)).collect::<Vec<_>>()})); }
     let Ok(oracle) = Oracle::new(&kit.ctx, &kit.sk) else { return };
     let enc = kit.ckks.as_ref().unwrap();
